@@ -18,7 +18,7 @@ def load(R):
         R.attr(a, t)
     for a in ("_output_keys", "_data_source", "_parent_data_source", "_index_bytes"):
         R.attr(a, TObj(), mutable=True)
-    for n, (a, r) in dict(own_key=([TObj(), TStr], TBool), value_of=([TObj(), TStr], TObj()), rtype_of=([TObj()], TObj()), stored_key=([TObj(), TObj(), TObj()], TObj()),
+    for n, (a, r) in dict(own_key=([TObj(), TStr], TBool), has_key=([TObj(), TStr], TBool), value_of=([TObj(), TStr], TObj()), rtype_of=([TObj()], TObj()), stored_key=([TObj(), TObj(), TObj()], TObj()),
                           has_attr=([TObj(), TObj()], TBool), index_has=([TObj(), TStr], TBool), index_entry=([TObj(), TStr], Entry), py_str=([TObj()], TStr)).items():
         R.uf(n, a, r)
     ufs = {k: v[0] for k, v in R.ufs.items()}
@@ -33,14 +33,15 @@ def load(R):
     def list_keys(ex, recv, args, kwargs):
         """obj.list_keys(_include_merge_parent=False): the own keys, each once (sorted order is immaterial here)."""
         inc = kwargs.get("_include_merge_parent", args[0] if args else VBool(True))
-        if not z3.is_false(z3.simplify(ex.truth(inc))):
-            raise Unsupported("list_keys(True) of an opaque partition")
+        # list_keys(False): the partition's own keys; list_keys(True): all of its keys (has_key).  For a partition WITHOUT a merge parent that was
+        # read back from the store the two differ: the entries it inherited when it was written are flagged from_parent and are not "own".
+        all_keys = ex.branch(ex.truth(inc))
         arr = ex.fresh("ownkeys", z3.ArraySort(z3.IntSort(), z3.StringSort()))
         idx = ex.fresh("ownkeysidx", z3.ArraySort(z3.StringSort(), z3.IntSort()))
         n = ex.fresh("nown", z3.IntSort())
         ex.assume(n >= 0)
         lst = ListV(TList(TStr), arr, n, idx)
-        own = ufs["own_key"]
+        own = ufs["has_key"] if all_keys else ufs["own_key"]
         o = recv.t
         ex.injlist_facts(lst, lambda k: own(o, k))
         return ex.new_box(lst)
@@ -49,7 +50,7 @@ def load(R):
     def get(ex, recv, args, kwargs):
         k = args[0]
         kt = k.t if isinstance(k, VStr) else ex.to_term(k, TStr)
-        if not ex.branch(ufs["own_key"](recv.t, kt)):
+        if not ex.branch(ufs["has_key"](recv.t, kt)):
             if ex.choose([z3.BoolVal(True), z3.BoolVal(True)]) == 1:
                 raise PyRaise(VExc("ValueError", []))
             return VObj(ex.fresh("parentval", ObjSort))
@@ -89,16 +90,19 @@ def load(R):
     # ---- the overlay law and what is remembered / left alone
     R.spec("PARENT_HAS", ["p", "k"], "p._merge_parent is not None and truthy(p._merge_parent) and k in PARENT_INDEX(p)")
     R.spec("PARENT_INDEX", ["p"], "p._merge_parent._index if isinstance(p._merge_parent, DefaultCodec.PicklePartition) else p._merge_parent._output_keys")
+    # the keys a partition contributes itself: all of its keys when it has no merge parent ("reads back with exactly the same key set"), its own keys
+    # (list_keys(False)) when it is layered on a parent
+    R.spec("SELF_KEY", ["p", "k"], "own_key(p, k) if (p._merge_parent is not None and truthy(p._merge_parent)) else has_key(p, k)")
     R.spec("OVERLAY", ["p", "ds", "ko"],
            # every own key is in the index with a fresh, non-inherited entry describing the value the partition returns for it ...
-           "forall(str, lambda k: implies(own_key(p, k), index_has(p._index_bytes, k) and not index_entry(p._index_bytes, k).from_parent "
+           "forall(str, lambda k: implies(SELF_KEY(p, k), index_has(p._index_bytes, k) and not index_entry(p._index_bytes, k).from_parent "
            "and same(index_entry(p._index_bytes, k).result_type, rtype_of(value_of(p, k))) "
            "and same(index_entry(p._index_bytes, k).content_key, stored_key(ds, (ko + '/' + k) if ko is not None else None, value_of(p, k))))) "
            # ... every parent key that is not overridden is inherited with the parent's type and content key ...
-           "and forall(str, lambda k: implies(PARENT_HAS(p, k) and not own_key(p, k), index_has(p._index_bytes, k) and index_entry(p._index_bytes, k).from_parent "
+           "and forall(str, lambda k: implies(PARENT_HAS(p, k) and not SELF_KEY(p, k), index_has(p._index_bytes, k) and index_entry(p._index_bytes, k).from_parent "
            "and same(index_entry(p._index_bytes, k).result_type, PARENT_INDEX(p)[k].result_type) and same(index_entry(p._index_bytes, k).content_key, PARENT_INDEX(p)[k].content_key))) "
            # ... and nothing else is in it
-           "and forall(str, lambda k: implies(index_has(p._index_bytes, k), own_key(p, k) or PARENT_HAS(p, k)))")
+           "and forall(str, lambda k: implies(index_has(p._index_bytes, k), SELF_KEY(p, k) or PARENT_HAS(p, k)))")
     # From the property ("... for chains of any length and whether the parent was ... built in memory"): a partition object that has been stored can
     # itself be the merge parent of a later one, so what it records about its stored form must describe the WHOLE stored result -- inherited
     # entries included --, not only its own keys.
@@ -114,7 +118,10 @@ def load(R):
                  if False else "True"],
              2: ["True"]}
 
-    def variant(tag, has_output_keys, has_data_source, has_parent_source, extra_ensures):
+    OWN_IS_KEY = "forall(str, lambda k: implies(own_key(obj, k), has_key(obj, k)))"
+    ALL_OWN = "forall(str, lambda k: has_key(obj, k) == own_key(obj, k))"      # in-memory / on-disk partition without a merge parent (their list_keys contracts)
+
+    def variant(tag, has_output_keys, has_data_source, has_parent_source, extra_ensures, class_facts=(OWN_IS_KEY, ALL_OWN)):
         R.contract(S + "@" + tag, prop="C17", types={"self": ST, "data_source": TObj("nn:DataSource"), "key_override": TOpt(TStr), "obj": TObj("nn:Partition")},
                    requires=["has_attr(obj, '_output_keys') == %s" % has_output_keys, "has_attr(obj, '_data_source') == %s" % has_data_source,
                              "has_attr(obj, '_parent_data_source') == %s" % has_parent_source, "obj._merge_parent is None"],
@@ -125,7 +132,7 @@ def load(R):
                               "and same(index[k].content_key, stored_key(data_source, (key_override + '/' + k) if key_override is not None else None, value_of(obj, k)))))",
                               "same(obj._data_source, old(obj._data_source)) and same(obj._output_keys, old(obj._output_keys)) and same(obj._parent_data_source, old(obj._parent_data_source))",
                               "same(self._codec, old(self._codec))"]},
-                   labels={"local_types": {"index": TDict(TStr, Entry)}},
+                   labels={"local_types": {"index": TDict(TStr, Entry)}, "entry_axioms": list(class_facts)},
                    modifies=["heap:_output_keys", "heap:_data_source", "heap:_parent_data_source", "heap:_index_bytes"])
     # ---- a partition with a merge parent: the parent's index is inherited, the partition's own keys are layered on top
     PI = "PARENT_INDEX(obj)"
@@ -147,7 +154,7 @@ def load(R):
                           "and same(index[k].content_key, stored_key(data_source, (key_override + '/' + k) if key_override is not None else None, value_of(obj, k)))))",
                           "forall(str, lambda k: implies(k in %s and not (k in keys and pos(keys, k) < loop_i), index[k] == _ResultTypeAndContentKey(%s[k].result_type, %s[k].content_key, True)))" % (PI, PI, PI),
                           "same(self._codec, old(self._codec))"]},
-               labels={"local_types": {"index": TDict(TStr, Entry)}},
+               labels={"entry_axioms": [OWN_IS_KEY], "local_types": {"index": TDict(TStr, Entry)}},
                modifies=["heap:_output_keys", "heap:_data_source", "heap:_parent_data_source", "heap:_index_bytes"])
     # an in-memory partition: stored once, it must be able to serve as the merge parent of a later partition -- it remembers its output keys and
     # the data source they were written to (the documented field _parent_data_source)
@@ -155,6 +162,9 @@ def load(R):
     variant("inmemory", True, False, True, REMEMBER)
     # an on-disk partition additionally keeps reading its staged values from its OWN data source: storing must not re-point it
     variant("ondisk", True, True, True, REMEMBER + ["same(obj._data_source, old(obj._data_source))"])
+    # a partition that was read back from the store and is returned again (by another function): no bookkeeping attributes; the entries it inherited when it
+    # was written are not "own" (list_keys(False) leaves them out) but they ARE its keys -- "reads back with exactly the same key set"
+    variant("readback", False, True, False, ["same(obj._data_source, old(obj._data_source))"], class_facts=(OWN_IS_KEY,))
     load_classes(R)
 
 
